@@ -1,11 +1,658 @@
-//! stub
-use crate::checks::{RunRecord, Tier};
-use crate::exec::Scratch;
+//! The channel scenario (C17): a document is sent through a transport that may re-spell it
+//! (whitespace, \uXXXX escapes for ASCII, member order) and is decoded at the far end through every
+//! decoding entry point — string, slice, streaming reader (simulated: chunking, EINTR, EIO), JSON
+//! tree, a file on tmpfs. All channels must agree.
+
+use crate::checks::{site_of, RunRecord, Tier, Trace, Violation};
+use crate::exec::{self, Scratch};
+use crate::gen::{self, GenOpts};
 use crate::oracle::Finding;
+use crate::prng::{Digest, Rng};
+use crate::simio::SimReader;
+use crate::world::*;
+use in_toto::interchange::{DataInterchange, Json};
+use serde::de::DeserializeOwned;
 use serde::{Deserialize, Serialize};
+use serde_json::{json, Value};
 
 #[derive(Clone, Debug, Serialize, Deserialize, PartialEq)]
-pub struct ChannelTrace {}
-pub fn run_c17(_t: Tier, _s: u64, _i: u64, _sc: &Scratch, _r: &mut RunRecord) {}
-pub fn replay(_p: &str, _t: &ChannelTrace, _sc: &Scratch, _r: &mut RunRecord) -> Vec<Finding> { vec![] }
-pub fn minimise(_p: &str, _c: &str, t: &ChannelTrace, _sc: &Scratch) -> (ChannelTrace, bool) { (t.clone(), false) }
+pub struct ChannelTrace {
+    /// which type decodes it: metablock | layout | link | wrapper | rule | step | inspection | pubkey | signature | statement | predicate
+    pub kind: String,
+    pub text: String,
+    /// re-spelling: whitespace style, per-character escape seed, member-order seed
+    pub ws: u8,
+    pub escape_seed: Option<u64>,
+    pub order_seed: Option<u64>,
+    pub io_seed: u64,
+    pub chunked: bool,
+    pub eintr_pct: u64,
+    pub fail_at: Option<usize>,
+    /// read(2)-level faults on the file channel: (short per-mille, eintr per-mille)
+    pub file_faults: Option<(u64, u64)>,
+    pub labels: Vec<String>,
+}
+
+// ---------------------------------------------------------------------------------------------
+// re-spelling
+// ---------------------------------------------------------------------------------------------
+fn write_string(s: &str, out: &mut String, r: &mut Option<Rng>) {
+    out.push('"');
+    for c in s.chars() {
+        let esc_ascii = match r {
+            Some(rr) => c.is_ascii() && rr.chance(1, 3),
+            None => false,
+        };
+        match c {
+            '"' if !esc_ascii => out.push_str("\\\""),
+            '\\' if !esc_ascii => out.push_str("\\\\"),
+            '\n' if !esc_ascii => out.push_str("\\n"),
+            '\r' if !esc_ascii => out.push_str("\\r"),
+            '\t' if !esc_ascii => out.push_str("\\t"),
+            c if (c as u32) < 0x20 || esc_ascii => out.push_str(&format!("\\u{:04x}", c as u32)),
+            '/' if r.as_mut().map(|rr| rr.chance(1, 4)).unwrap_or(false) => out.push_str("\\/"),
+            c => out.push(c),
+        }
+    }
+    out.push('"');
+}
+
+fn ws(out: &mut String, style: u8, depth: usize) {
+    match style {
+        0 => {}
+        1 => out.push(' '),
+        2 => {
+            out.push('\n');
+            for _ in 0..depth {
+                out.push_str("  ");
+            }
+        }
+        _ => out.push_str(" \t\r\n "),
+    }
+}
+
+fn write_value(v: &Value, out: &mut String, style: u8, esc: &mut Option<Rng>, ord: &mut Option<Rng>, depth: usize) {
+    match v {
+        Value::Null => out.push_str("null"),
+        Value::Bool(b) => out.push_str(if *b { "true" } else { "false" }),
+        Value::Number(n) => out.push_str(&n.to_string()),
+        Value::String(s) => write_string(s, out, esc),
+        Value::Array(a) => {
+            out.push('[');
+            for (i, x) in a.iter().enumerate() {
+                if i > 0 {
+                    out.push(',');
+                }
+                ws(out, style, depth + 1);
+                write_value(x, out, style, esc, ord, depth + 1);
+            }
+            if !a.is_empty() {
+                ws(out, style, depth);
+            }
+            out.push(']');
+        }
+        Value::Object(m) => {
+            out.push('{');
+            let mut ks: Vec<&String> = m.keys().collect();
+            if let Some(o) = ord {
+                o.shuffle(&mut ks);
+            }
+            for (i, k) in ks.iter().enumerate() {
+                if i > 0 {
+                    out.push(',');
+                }
+                ws(out, style, depth + 1);
+                write_string(k, out, esc);
+                if style > 0 {
+                    out.push(' ');
+                }
+                out.push(':');
+                if style > 0 {
+                    out.push(' ');
+                }
+                write_value(&m[*k], out, style, esc, ord, depth + 1);
+            }
+            if !m.is_empty() {
+                ws(out, style, depth);
+            }
+            out.push('}');
+        }
+    }
+}
+
+pub fn respell(text: &str, style: u8, escape_seed: Option<u64>, order_seed: Option<u64>) -> Option<String> {
+    let v: Value = serde_json::from_str(text).ok()?;
+    let mut out = String::new();
+    let mut esc = escape_seed.map(Rng::new);
+    let mut ord = order_seed.map(Rng::new);
+    write_value(&v, &mut out, style, &mut esc, &mut ord, 0);
+    Some(out)
+}
+
+// ---------------------------------------------------------------------------------------------
+// decoding through every channel
+// ---------------------------------------------------------------------------------------------
+#[derive(Debug, Clone, PartialEq)]
+pub struct ChanResult {
+    pub channel: String,
+    pub spelling: &'static str,
+    pub ok: bool,
+    pub err: String,
+    /// streaming channel with an injected hard error
+    pub may_fail: bool,
+}
+
+pub struct ChannelOutcome {
+    pub results: Vec<ChanResult>,
+    /// index pairs of Ok results whose values differ
+    pub unequal: Option<(usize, usize)>,
+    pub panic: Option<String>,
+    pub respelled: bool,
+    pub io: (usize, usize, usize),
+    pub file_io: (usize, usize, usize),
+}
+
+fn decode_all<T: DeserializeOwned + PartialEq + Send + 'static>(t: &ChannelTrace, texts: Vec<(&'static str, String)>, scratch_file: std::path::PathBuf, dev: u64) -> ChannelOutcome {
+    let t2 = t.clone();
+    let r = exec::silenced(|| {
+        exec::in_fresh_thread(t.io_seed, move || {
+            let mut results: Vec<ChanResult> = vec![];
+            let mut values: Vec<Option<T>> = vec![];
+            let mut io = (0, 0, 0);
+            let mut file_io = (0, 0, 0);
+            let mut push = |ch: &str, sp: &'static str, r: Result<T, String>, may_fail: bool, results: &mut Vec<ChanResult>, values: &mut Vec<Option<T>>| {
+                match r {
+                    Ok(v) => {
+                        results.push(ChanResult { channel: ch.into(), spelling: sp, ok: true, err: String::new(), may_fail });
+                        values.push(Some(v));
+                    }
+                    Err(e) => {
+                        results.push(ChanResult { channel: ch.into(), spelling: sp, ok: false, err: e.chars().take(120).collect(), may_fail });
+                        values.push(None);
+                    }
+                }
+            };
+            for (sp, text) in &texts {
+                push("serde_json::from_str", sp, serde_json::from_str::<T>(text).map_err(|e| e.to_string()), false, &mut results, &mut values);
+                push("serde_json::from_slice", sp, serde_json::from_slice::<T>(text.as_bytes()).map_err(|e| e.to_string()), false, &mut results, &mut values);
+                push("Json::from_slice", sp, Json::from_slice::<T>(text.as_bytes()).map_err(|e| e.to_string()), false, &mut results, &mut values);
+                // JSON tree
+                match serde_json::from_str::<Value>(text) {
+                    Ok(tree) => {
+                        push("serde_json::from_value", sp, serde_json::from_value::<T>(tree.clone()).map_err(|e| e.to_string()), false, &mut results, &mut values);
+                        push("Json::deserialize", sp, Json::deserialize::<T>(&tree).map_err(|e| e.to_string()), false, &mut results, &mut values);
+                    }
+                    Err(e) => {
+                        push("serde_json::from_value", sp, Err(e.to_string()), false, &mut results, &mut values);
+                    }
+                }
+                // streaming readers
+                {
+                    let mut rd = SimReader::new(text.as_bytes(), t2.io_seed, t2.chunked, t2.eintr_pct, None);
+                    let r = serde_json::from_reader::<_, T>(&mut rd).map_err(|e| e.to_string());
+                    io.0 += rd.stats.short;
+                    io.1 += rd.stats.eintr;
+                    push("serde_json::from_reader", sp, r, false, &mut results, &mut values);
+                }
+                {
+                    let mut rd = SimReader::new(text.as_bytes(), t2.io_seed ^ 1, t2.chunked, t2.eintr_pct, None);
+                    let r = Json::from_reader::<_, T>(&mut rd).map_err(|e| e.to_string());
+                    io.0 += rd.stats.short;
+                    io.1 += rd.stats.eintr;
+                    push("Json::from_reader", sp, r, false, &mut results, &mut values);
+                }
+                if let Some(fa) = t2.fail_at {
+                    let mut rd = SimReader::new(text.as_bytes(), t2.io_seed ^ 2, t2.chunked, t2.eintr_pct, Some(fa % (text.len() + 1)));
+                    let r = serde_json::from_reader::<_, T>(&mut rd).map_err(|e| e.to_string());
+                    io.2 += rd.stats.eio;
+                    push("serde_json::from_reader+EIO", sp, r, true, &mut results, &mut values);
+                }
+                // a file on tmpfs, optionally with read(2)-level faults (short reads, EINTR)
+                if std::fs::write(&scratch_file, text.as_bytes()).is_ok() {
+                    if let Some((short, eintr)) = t2.file_faults {
+                        crate::seams::read_arm(dev, t2.io_seed, short, eintr, 0);
+                    }
+                    let r = std::fs::File::open(&scratch_file)
+                        .map_err(|e| e.to_string())
+                        .and_then(|f| serde_json::from_reader::<_, T>(std::io::BufReader::new(f)).map_err(|e| e.to_string()));
+                    let r2 = std::fs::read_to_string(&scratch_file).map_err(|e| e.to_string()).and_then(|s| serde_json::from_str::<T>(&s).map_err(|e| e.to_string()));
+                    if t2.file_faults.is_some() {
+                        let (_c, s, e, _) = crate::seams::read_disarm();
+                        file_io.0 += s;
+                        file_io.1 += e;
+                    }
+                    push("file: from_reader(BufReader<File>)", sp, r, false, &mut results, &mut values);
+                    push("file: read_to_string + from_str", sp, r2, false, &mut results, &mut values);
+                }
+            }
+            // pairwise equality of Ok values against the first Ok
+            let mut unequal = None;
+            let first = values.iter().position(|v| v.is_some());
+            if let Some(f) = first {
+                for (i, v) in values.iter().enumerate() {
+                    if let Some(v) = v {
+                        if Some(v) != values[f].as_ref() {
+                            unequal = Some((f, i));
+                            break;
+                        }
+                    }
+                }
+            }
+            (results, unequal, io, file_io)
+        })
+    });
+    match r {
+        Ok((results, unequal, io, file_io)) => ChannelOutcome { results, unequal, panic: None, respelled: false, io, file_io },
+        Err(p) => {
+            crate::seams::read_disarm();
+            ChannelOutcome { results: vec![], unequal: None, panic: Some(p), respelled: false, io: (0, 0, 0), file_io: (0, 0, 0) }
+        }
+    }
+}
+
+pub fn run_channel(t: &ChannelTrace, scratch: &Scratch) -> ChannelOutcome {
+    use std::os::unix::fs::MetadataExt;
+    let mut texts: Vec<(&'static str, String)> = vec![("as-written", t.text.clone())];
+    let mut respelled = false;
+    if let Some(rs) = respell(&t.text, t.ws, t.escape_seed, t.order_seed) {
+        if rs != t.text {
+            texts.push(("re-spelled", rs));
+            respelled = true;
+        }
+    }
+    let file = scratch.side().join("channel-doc.json");
+    let dev = std::fs::metadata(scratch.side()).map(|m| m.dev()).unwrap_or(0);
+    let mut o = match t.kind.as_str() {
+        "metablock" => decode_all::<in_toto::models::Metablock>(t, texts, file, dev),
+        "layout" => decode_all::<in_toto::models::LayoutMetadata>(t, texts, file, dev),
+        "link" => decode_all::<in_toto::models::LinkMetadata>(t, texts, file, dev),
+        "wrapper" => decode_all::<in_toto::models::MetadataWrapper>(t, texts, file, dev),
+        "rule" => decode_all::<in_toto::models::rule::ArtifactRule>(t, texts, file, dev),
+        "step" => decode_all::<in_toto::models::step::Step>(t, texts, file, dev),
+        "inspection" => decode_all::<in_toto::models::inspection::Inspection>(t, texts, file, dev),
+        "pubkey" => decode_all::<in_toto::crypto::PublicKey>(t, texts, file, dev),
+        "signature" => decode_all::<in_toto::crypto::Signature>(t, texts, file, dev),
+        "statement" => decode_all::<in_toto::models::StatementWrapper>(t, texts, file, dev),
+        "predicate" => decode_all::<in_toto::models::PredicateWrapper>(t, texts, file, dev),
+        _ => ChannelOutcome { results: vec![], unequal: None, panic: None, respelled: false, io: (0, 0, 0), file_io: (0, 0, 0) },
+    };
+    o.respelled = respelled;
+    o
+}
+
+pub fn judge_channel(_t: &ChannelTrace, o: &ChannelOutcome) -> Vec<Finding> {
+    let mut f = vec![];
+    if let Some(p) = &o.panic {
+        f.push(Finding { prop: "C14".into(), clause: "panic-in-decoder".into(), detail: p.clone() });
+        return f;
+    }
+    let strict: Vec<&ChanResult> = o.results.iter().filter(|r| !r.may_fail).collect();
+    let n_ok = strict.iter().filter(|r| r.ok).count();
+    if n_ok != 0 && n_ok != strict.len() {
+        let good = strict.iter().find(|r| r.ok).unwrap();
+        let bad = strict.iter().find(|r| !r.ok).unwrap();
+        let clause = if good.spelling == bad.spelling { "channels-disagree" } else { "spellings-disagree" };
+        // prefer reporting a pure channel disagreement (same spelling) when there is one
+        let same_spelling = strict.iter().any(|a| strict.iter().any(|b| a.spelling == b.spelling && a.ok != b.ok));
+        let clause = if same_spelling { "channels-disagree" } else { clause };
+        f.push(Finding {
+            prop: "C17".into(),
+            clause: clause.into(),
+            detail: format!("accepted by {} ({}) but rejected by {} ({}): {}", good.channel, good.spelling, bad.channel, bad.spelling, bad.err),
+        });
+    }
+    if let Some((a, b)) = o.unequal {
+        f.push(Finding {
+            prop: "C17".into(),
+            clause: "values-differ".into(),
+            detail: format!("{} ({}) and {} ({}) both accept but yield different values", o.results[a].channel, o.results[a].spelling, o.results[b].channel, o.results[b].spelling),
+        });
+    }
+    // a hard stream error may only turn Ok into Err
+    if strict.iter().all(|r| !r.ok) {
+        if let Some(r) = o.results.iter().find(|r| r.may_fail && r.ok) {
+            f.push(Finding { prop: "C17".into(), clause: "accepted-only-under-stream-error".into(), detail: format!("{} accepted a document every other channel rejects", r.channel) });
+        }
+    }
+    f
+}
+
+fn fold(t: &ChannelTrace, o: &ChannelOutcome, findings: Vec<Finding>, rec: &mut RunRecord, seed: u64, index: u64, prop: &str) -> Vec<Finding> {
+    rec.evaluations += 1;
+    let strict_ok = o.results.iter().filter(|r| !r.may_fail && r.ok).count();
+    let mut d = Digest::new();
+    d.update(&rec.log_digest.to_le_bytes());
+    for r in &o.results {
+        d.str(&r.channel);
+        d.str(r.spelling);
+        d.str(if r.ok { "ok" } else { "err" });
+    }
+    rec.log_digest = d.finish();
+    let mut sh = Digest::new();
+    sh.str(&t.kind);
+    sh.str(&format!("{:?}", t.labels));
+    sh.str(&format!("{}|{}|{}|{}", strict_ok, o.results.len(), o.respelled, t.text.len() / 64));
+    sh.str(&format!("{:?}{:?}{}{:?}", t.escape_seed.is_some(), t.order_seed.is_some(), t.ws, t.fail_at.is_some()));
+    rec.shapes.push((sh.finish(), o.respelled || t.chunked || t.eintr_pct > 0));
+    rec.schedules.push(t.io_seed);
+    for l in &t.labels {
+        rec.fired.push(l.clone());
+    }
+    if o.respelled {
+        rec.fired.push("RESPELL".into());
+    }
+    if o.io.0 > 0 {
+        rec.fired.push("CHUNK".into());
+    }
+    if o.io.1 > 0 {
+        rec.fired.push("EINTR".into());
+    }
+    if o.io.2 > 0 {
+        rec.fired.push("EIO@offset".into());
+    }
+    if o.file_io.0 > 0 {
+        rec.fired.push("R-SHORT".into());
+    }
+    if o.file_io.1 > 0 {
+        rec.fired.push("R-EINTR".into());
+    }
+    rec.verdicts[if strict_ok > 0 { 0 } else { 1 }] += 1;
+    if o.panic.is_some() {
+        rec.verdicts[2] += 1;
+    }
+    if strict_ok == 0 {
+        rec.probe("document rejected by every channel");
+    } else {
+        rec.probe("document accepted by every channel");
+    }
+    if rec.sample.is_none() {
+        rec.sample = Some(json!({"seed": seed, "kind": t.kind, "labels": t.labels, "text_prefix": t.text.chars().take(160).collect::<String>(),
+            "channels": o.results.iter().map(|r| format!("{} [{}] -> {}", r.channel, r.spelling, if r.ok { "Ok" } else { "Err" })).collect::<Vec<_>>() }));
+    }
+    let mut own = vec![];
+    for x in findings {
+        if x.prop == prop {
+            if own.is_empty() {
+                let lab = vec![t.kind.clone()];
+                rec.own.push(Violation { seed, index, site: site_of(&x, &lab), finding: x.clone(), trace: Trace::Channel(t.clone()) });
+            }
+            own.push(x);
+        } else {
+            rec.cross.push(x);
+        }
+    }
+    own
+}
+
+fn exec_and_fold(t: &ChannelTrace, scratch: &Scratch, rec: &mut RunRecord, seed: u64, index: u64, prop: &str) -> Vec<Finding> {
+    let o = run_channel(t, scratch);
+    let f = judge_channel(t, &o);
+    fold(t, &o, f, rec, seed, index, prop)
+}
+
+// ---------------------------------------------------------------------------------------------
+// documents
+// ---------------------------------------------------------------------------------------------
+fn rule_pool(r: &mut Rng, from: &str) -> Rule {
+    let pat = r.pick(&["*", "foo", "src/*.c", "a?b", "[ab]x", "dir/"]).to_string();
+    match r.below(10) {
+        0 => vec!["CREATE".into(), pat],
+        1 => vec!["DELETE".into(), pat],
+        2 => vec!["MODIFY".into(), pat],
+        3 => vec!["ALLOW".into(), pat],
+        4 => vec!["REQUIRE".into(), pat],
+        5 => vec!["DISALLOW".into(), pat],
+        6 => vec!["MATCH".into(), pat, "WITH".into(), "PRODUCTS".into(), "FROM".into(), from.into()],
+        7 => vec!["MATCH".into(), pat, "IN".into(), "src".into(), "WITH".into(), "MATERIALS".into(), "FROM".into(), from.into()],
+        8 => vec!["MATCH".into(), pat, "WITH".into(), "PRODUCTS".into(), "IN".into(), "dst".into(), "FROM".into(), from.into()],
+        _ => vec!["MATCH".into(), pat, "IN".into(), "src".into(), "WITH".into(), "MATERIALS".into(), "IN".into(), "dst".into(), "FROM".into(), from.into()],
+    }
+}
+
+fn link_like(r: &mut Rng) -> (Value, Value, Value, Value, Value) {
+    let mut arts = serde_json::Map::new();
+    for i in 0..r.below(3) {
+        arts.insert(format!("p{i}/f"), json!(gen::digest_of(r.below(40), r.chance(1, 4))));
+    }
+    let env = if r.chance(1, 2) { Value::Null } else { json!({"PATH": gen::text(r)}) };
+    let by = json!({"return-value": r.below(3), "stdout": gen::text(r), "stderr": gen::text(r)});
+    let cmd = json!((0..r.below(3)).map(|_| gen::text(r)).collect::<Vec<_>>());
+    (Value::Object(arts.clone()), Value::Object(arts), env, by, cmd)
+}
+
+fn slsa01(r: &mut Rng) -> Value {
+    let mut meta = json!({"buildInvocationId": gen::simple_name(r), "completeness": {"environment": true}});
+    if r.chance(1, 2) {
+        meta["buildStartedOn"] = json!("2026-01-01T00:00:00Z");
+    }
+    json!({
+        "builder": {"id": "https://example.com/builder@v1"},
+        "recipe": {"type": "https://example.com/recipe@v1", "definedInMaterial": 0, "entryPoint": gen::simple_name(r)},
+        "metadata": meta,
+        "materials": [{"uri": "git+https://example.com/x@main", "digest": {"sha1": "d6525c840a62b398424a78d792f457477135d0cf"}}],
+    })
+}
+
+fn slsa02(r: &mut Rng) -> Value {
+    let mut meta = json!({"buildInvocationId": gen::simple_name(r), "reproducible": false});
+    if r.chance(1, 2) {
+        meta["buildFinishedOn"] = json!("2026-01-01T00:00:00+01:00");
+    }
+    json!({
+        "builder": {"id": "https://example.com/builder@v2"},
+        "buildType": "https://example.com/buildtype@v1",
+        "invocation": {"configSource": {"uri": "git+https://example.com/x", "digest": {"sha1": "abc"}, "entryPoint": "build.yaml"}, "parameters": gen::text(r)},
+        "metadata": meta,
+        "materials": [{"uri": "git+https://example.com/y"}],
+    })
+}
+
+pub fn gen_document(r: &mut Rng, seed: u64) -> (String, Value) {
+    let kind = r.weighted(&[20, 12, 10, 8, 14, 8, 6, 6, 4, 6, 6]);
+    let opts = GenOpts { ed_only_pct: 80, delegation_pct: 0, max_steps: 3, ..GenOpts::default() };
+    let (t, _) = gen::baseline(seed ^ 0xabcdef, &opts);
+    let mut layout = t.root.layout.clone();
+    for s in layout.steps.iter_mut() {
+        if r.chance(2, 3) {
+            let from = s.name.clone();
+            for _ in 0..(1 + r.below(3)) {
+                s.exp_mat.push(rule_pool(r, &from));
+                s.exp_prod.push(rule_pool(r, &from));
+            }
+        }
+    }
+    if r.chance(1, 3) {
+        layout.inspect.push(InspSpec {
+            name: "insp".into(),
+            exp_mat: vec![rule_pool(r, "x")],
+            exp_prod: vec![],
+            actor: ActorScript { id: "root#insp".into(), ops: vec![], stdout: vec![], stderr: vec![], exit: ExitSpec::Code(0) },
+        });
+    }
+    let lv = layout_value(&layout, &t.keys);
+    let link = t.root.files.iter().find_map(|f| if let Body::Link(l) = &f.body { Some(l.clone()) } else { None }).unwrap_or_default();
+    let linkv = link_value(&link);
+    match kind {
+        0 => {
+            let signed = if r.chance(2, 3) { lv } else { linkv };
+            let doc = sign_value(&signed, &[0], &t.keys).unwrap_or(json!({"signatures": [], "signed": signed}));
+            ("metablock".into(), doc)
+        }
+        1 => ("layout".into(), lv),
+        2 => ("link".into(), linkv),
+        3 => ("wrapper".into(), if r.chance(1, 2) { lv } else { linkv }),
+        4 => ("rule".into(), json!(rule_pool(r, "some-step"))),
+        5 => ("step".into(), lv["steps"][0].clone()),
+        6 => {
+            let i = json!({"_type": "inspection", "name": "i", "expected_materials": [rule_pool(r, "s")], "expected_products": [], "run": ["sh", "-c", gen::text(r)]});
+            ("inspection".into(), i)
+        }
+        7 => ("pubkey".into(), crate::keys::key(t.keys[r.idx(t.keys.len())]).public_json()),
+        8 => {
+            let doc = sign_value(&linkv, &[0], &t.keys).unwrap_or(json!({"signatures": [{"keyid": "00", "sig": "00"}]}));
+            ("signature".into(), doc["signatures"][0].clone())
+        }
+        9 => {
+            let (m, p, env, by, cmd) = link_like(r);
+            if r.chance(1, 2) {
+                ("statement".into(), json!({"_type": "link", "name": gen::simple_name(r), "materials": m, "products": p, "env": env, "command": cmd, "byproducts": by}))
+            } else {
+                let (pt, pred) = match r.below(3) {
+                    0 => ("https://in-toto.io/Link/v0.2", json!({"name": gen::simple_name(r), "materials": m, "env": env, "command": cmd, "byproducts": by})),
+                    1 => ("https://slsa.dev/provenance/v0.1", slsa01(r)),
+                    _ => ("https://slsa.dev/provenance/v0.2", slsa02(r)),
+                };
+                ("statement".into(), json!({"_type": "https://in-toto.io/Statement/v0.1", "subject": p, "predicateType": pt, "predicate": pred}))
+            }
+        }
+        _ => {
+            let (m, _p, env, by, cmd) = link_like(r);
+            let pred = match r.below(3) {
+                0 => json!({"name": gen::simple_name(r), "materials": m, "env": env, "command": cmd, "byproducts": by}),
+                1 => slsa01(r),
+                _ => slsa02(r),
+            };
+            ("predicate".into(), pred)
+        }
+    }
+}
+
+pub fn run_c17(tier: Tier, seed: u64, index: u64, scratch: &Scratch, rec: &mut RunRecord) {
+    let mut r = Rng::stream(seed, "channel");
+    let (kind, mut doc) = gen_document(&mut r, seed);
+    let mut labels = vec![];
+    // some documents are damaged so that the reject side is exercised as well
+    if r.chance(1, 5) {
+        let mut ls = vec![];
+        gen::leaves(&doc, "", &mut ls);
+        if !ls.is_empty() {
+            let (ptr, old) = r.pick(&ls).clone();
+            let nv = gen::mutate_leaf(&mut r, &old);
+            if let Some(slot) = doc.pointer_mut(&ptr) {
+                *slot = nv;
+                labels.push("DAMAGED-LEAF".into());
+            }
+        }
+    }
+    let text = if r.chance(1, 2) { serde_json::to_string(&doc).unwrap() } else { serde_json::to_string_pretty(&doc).unwrap() };
+    let n_spell = if tier == Tier::Quick { 2 } else { 4 };
+    for _ in 0..n_spell {
+        let t = ChannelTrace {
+            kind: kind.clone(),
+            text: text.clone(),
+            ws: r.below(4) as u8,
+            escape_seed: if r.chance(1, 2) { Some(r.next()) } else { None },
+            order_seed: if r.chance(1, 2) { Some(r.next()) } else { None },
+            io_seed: r.next(),
+            chunked: r.chance(3, 4),
+            eintr_pct: *r.pick(&[0u64, 0, 10, 40]),
+            fail_at: if r.chance(1, 3) { Some(r.next() as usize % 100_000) } else { None },
+            file_faults: if tier == Tier::Thorough && r.chance(1, 2) { Some((300, 100)) } else { None },
+            labels: labels.clone(),
+        };
+        let own = exec_and_fold(&t, scratch, rec, seed, index, "C17");
+        if !own.is_empty() {
+            break;
+        }
+    }
+}
+
+pub fn replay(prop: &str, t: &ChannelTrace, scratch: &Scratch, rec: &mut RunRecord) -> Vec<Finding> {
+    exec_and_fold(t, scratch, rec, 0, 0, prop)
+}
+
+pub fn minimise(prop: &str, clause: &str, t: &ChannelTrace, scratch: &Scratch) -> (ChannelTrace, bool) {
+    let still = |c: &ChannelTrace| {
+        let o = run_channel(c, scratch);
+        judge_channel(c, &o).iter().any(|f| f.prop == prop && f.clause == clause)
+    };
+    let mut cur = t.clone();
+    let mut changed = false;
+    for _ in 0..400 {
+        let mut cands = vec![];
+        for (a, b, c, d) in [(true, false, false, false), (false, true, false, false), (false, false, true, false), (false, false, false, true)] {
+            let mut x = cur.clone();
+            if a {
+                x.escape_seed = None;
+            }
+            if b {
+                x.order_seed = None;
+            }
+            if c {
+                x.ws = 0;
+            }
+            if d {
+                x.chunked = false;
+                x.eintr_pct = 0;
+                x.fail_at = None;
+                x.file_faults = None;
+            }
+            cands.push(x);
+        }
+        // structural shrinking of the document: drop members / elements
+        if let Ok(v) = serde_json::from_str::<Value>(&cur.text) {
+            let mut ls = vec![];
+            gen::leaves(&v, "", &mut ls);
+            for (ptr, _) in ls.iter().take(200) {
+                let mut v2 = v.clone();
+                if remove_ptr_pub(&mut v2, ptr) {
+                    let mut x = cur.clone();
+                    x.text = serde_json::to_string(&v2).unwrap();
+                    cands.push(x);
+                }
+                // also try dropping the parent container's element
+                if let Some(pos) = ptr.rfind('/') {
+                    let parent = &ptr[..pos];
+                    if !parent.is_empty() {
+                        let mut v3 = v.clone();
+                        if remove_ptr_pub(&mut v3, parent) {
+                            let mut x = cur.clone();
+                            x.text = serde_json::to_string(&v3).unwrap();
+                            cands.push(x);
+                        }
+                    }
+                }
+            }
+        }
+        let mut progress = false;
+        for c in cands {
+            if c != cur && c.text.len() <= cur.text.len() && still(&c) {
+                cur = c;
+                changed = true;
+                progress = true;
+                break;
+            }
+        }
+        if !progress {
+            break;
+        }
+    }
+    (cur, changed)
+}
+
+fn remove_ptr_pub(doc: &mut Value, ptr: &str) -> bool {
+    let mut d = json!({"x": doc.clone()});
+    let ok = apply_op(&mut json!({"signatures": [], "x": 0}), &DocOp::Remove { ptr: "/nope".into() }, &[]);
+    let _ = ok;
+    let full = format!("/x{}", ptr);
+    let (parent, last) = match full.rfind('/') {
+        Some(i) => (full[..i].to_string(), full[i + 1..].to_string()),
+        None => return false,
+    };
+    let last = last.replace("~1", "/").replace("~0", "~");
+    let removed = match d.pointer_mut(&parent) {
+        Some(Value::Object(m)) => m.remove(&last).is_some(),
+        Some(Value::Array(a)) => match last.parse::<usize>() {
+            Ok(i) if i < a.len() => {
+                a.remove(i);
+                true
+            }
+            _ => false,
+        },
+        _ => false,
+    };
+    if removed {
+        *doc = d["x"].take();
+    }
+    removed
+}
